@@ -49,8 +49,27 @@ def commit_guard_obligations(ctx):
         tests = [(n, lab) for n, lab in tests if lab]
         blocked = [(n, m, l) for n, lab in tests for m, l in n.succ if l == lab]
         r = cfg.reachable([cfg.entry], block_edges=blocked)
+        if any(c.id in r for c in commits):
+            # boolean temporaries (`unchanged = ...; if not unchanged: commit`): walk with every change test
+            # assumed to say 'unchanged' and see whether a commit is still reachable
+            from .common import const_walk
+
+            def decide(t_, _iv=index_vars):
+                lab = _is_change_test(t_, _iv)
+                if lab is None:
+                    return None
+                return lab == "f"       # 'changed' is the f edge  <=>  the test is True when unchanged
+
+            try:
+                r = set(const_walk(cfg, [cfg.entry], {}, decide=decide, follow_exc=True))
+            except AnalysisError:
+                pass
+            has_tests = bool(tests) or any(_is_change_test(x, index_vars) for n_ in cfg.stmt_nodes() if n_.ast is not None
+                                           for x in ast.walk(n_.ast) if isinstance(x, ast.Compare))
+        else:
+            has_tests = bool(tests)
         for c in commits:
-            ok = bool(tests) and c.id not in r
+            ok = has_tests and c.id not in r
             obs.append(ctx.ob(ok, fi.qualname, where(fi, c), "commit only if the content id changed",
                               "`%s` is reachable only through the 'changed' side of %s" % (node_desc(c), " / ".join("`%s`" % src(t.ast) for t, _ in tests)),
                               "`%s` is reachable without a comparison of the new and the old object id: a no-op rewrite adds a commit" % node_desc(c)))
